@@ -8,7 +8,8 @@
                   children, belong to its module and have different names; a key-less list has no LYS_CONFIG_W; key leaves
                   occur nowhere else; terms have no children
      dwf S t      the data tree: every node is an instance of a schema child of its parent's schema node with the same
-                  type and flags; inner nodes have no value, terms a valid (UTF-8) string; a list instance starts with its
+                  type and flags; inner nodes have no value, terms the CANONICAL value of their type (string: valid UTF-8; int8..uint64,
+                  boolean, enumeration: PathModel.canon); a list instance starts with its
                   keys and has no other key leaf; among siblings, instances of key-less lists and state leaf-lists are
                   contiguous, every other node has no earlier sibling with the same identity (schema node; + key values;
                   + value for configuration leaf-lists); fewer than 2^31 siblings
@@ -16,6 +17,7 @@
                   Properties_C15_ytext.v and, at path level, in C15_pathmodel_both_quotes_refuted below *)
 From LY Require Import Base Utf8 PathQuote PathModel PathModelLexP PathModelP.
 From Coq Require Import String.
+From LY Require IntLex.
 Local Open Scope N_scope.
 
 (* For every well-formed tree t over schema S and every node x of it (position p = child indices from the top level):
@@ -63,6 +65,57 @@ Theorem C15_pathmodel_new_exists :
 Proof. exact new_path_exists. Qed.
 Print Assumptions C15_pathmodel_new_exists.
 
+(* ---- typed keys, any lexical form of a value in the predicate ----
+   [var] spells the value of every key and configuration leaf-list node; var_ok var t: each spelling is a lexical form
+   of the stored canonical value (canon type (var c) = Some (value of c)) without both quote characters; path_var var t p is
+   the path of the node at p written with these spellings (var = d_v gives lyd_path()'s own output, path_of). The compiled
+   path is the same as for the printed path (the predicates store canonical values), so: *)
+
+(* lyd_find_path() with any admissible spelling - [k='+07'], [k=' 7 '] for an int8 key whose canonical value is 7 - returns
+   exactly the node, every stage visible. *)
+Theorem C15_pathmodel_roundtrip_stages_variant :
+  forall var S t p x,
+    swf S = true -> dwf S t = true -> var_ok var t = true -> node_at t p = Some x ->
+    exists sp cp,
+      parse_path (path_var var t p) = Ok sp /\
+      compile_segs false S None sp = Ok cp /\ compile_segs true S None sp = Ok cp /\
+      eval_segs cp t = EFound p.
+Proof. exact roundtrip_stages_var. Qed.
+Print Assumptions C15_pathmodel_roundtrip_stages_variant.
+
+Theorem C15_pathmodel_find_variant :
+  forall var S t p x,
+    swf S = true -> dwf S t = true -> var_ok var t = true -> node_at t p = Some x ->
+    find_path S t (path_var var t p) = FRes (EFound p).
+Proof. exact find_var. Qed.
+Print Assumptions C15_pathmodel_find_variant.
+
+(* lyd_new_path() on the empty tree with any admissible spelling in the predicates and any lexical form w of the node's
+   own value (val_ok x w: canon type w = Some (value of x); anydata: the empty value): the created chain is the spine with
+   the CANONICAL values. *)
+Theorem C15_pathmodel_new_empty_variant :
+  forall var S t p x w,
+    swf S = true -> dwf S t = true -> var_ok var t = true -> node_at t p = Some x -> top_first t p -> val_ok x w ->
+    new_path S [] (path_var var t p) w = NCreated None (spine t p).
+Proof. exact new_path_empty_var. Qed.
+Print Assumptions C15_pathmodel_new_empty_variant.
+
+(* ... and on the tree itself: LY_EEXIST whatever the spelling. *)
+Theorem C15_pathmodel_new_exists_variant :
+  forall var S t p x v,
+    swf S = true -> dwf S t = true -> var_ok var t = true -> node_at t p = Some x ->
+    new_path S t (path_var var t p) v = if is_dflt x then NCreated None [] else NErr E_EXIST.
+Proof. exact new_path_exists_var. Qed.
+Print Assumptions C15_pathmodel_new_exists_variant.
+
+(* the printed path is the variant var = d_v, and it is admissible for every well-formed tree with quotes_ok *)
+Theorem C15_pathmodel_printed_is_variant :
+  forall S t p x,
+    dwf S t = true -> quotes_ok t = true -> node_at t p = Some x ->
+    var_ok d_v t = true /\ path_of t p = Some (path_var d_v t p).
+Proof. intros S t p x Hd Hq Hn. split; [exact (own_var_ok S t Hd Hq)|exact (path_of_var t p x Hn)]. Qed.
+Print Assumptions C15_pathmodel_printed_is_variant.
+
 (* The assumption quotes_ok cannot be dropped (known finding path-both-quotes): a well-formed tree whose list key holds
    a, single quote, b, double quote, c - the printed path of the leaf v below that list instance is rejected by the parser,
    so the search fails and so does the creation in an empty tree. *)
@@ -88,18 +141,25 @@ Proof.
 Qed.
 Print Assumptions C15_pathmodel_top_position_refuted.
 
-(* The hypotheses are met by a non-trivial tree (31 nodes): two modules with equal local names (an augmented leaf named
+(* The hypotheses are met by a non-trivial tree (40 nodes; a list tl with an int8, a boolean and an enumeration key and a
+   uint8 leaf; non-canonical spellings +007, blank -07 blank, +0200 are shown to find / create the canonical node): two modules with equal local names (an augmented leaf named
    like a key, an augmented container named like its parent, a second top-level c), a list with two keys whose values hold
    blanks, brackets, a slash and either quote, a nested list, leaf-lists with a backslash and the empty value, a multi-byte
-   key, key-less list instances addressed by position, duplicate state leaf-list values; for each of its 31 nodes the
+   key, key-less list instances addressed by position, duplicate state leaf-list values; for each of its 40 nodes the
    conclusions of C15_pathmodel_find_own and C15_pathmodel_new_exists hold by computation, and some printed paths are
    shown. *)
 Example C15_pathmodel_example :
   swf ex_S = true /\ dwf ex_S ex_t = true /\ quotes_ok ex_t = true /\
-  List.length (all_pos ex_t O) = 31%nat /\ forallb (own_ok ex_S ex_t) (all_pos ex_t O) = true /\
+  List.length (all_pos ex_t O) = 40%nat /\ forallb (own_ok ex_S ex_t) (all_pos ex_t O) = true /\
   path_of ex_t [0; 0; 3; 2]%nat = Some (sb "/m1:c/l[k1='a b'][k.2=""[x]'y/""]/inner[id='i""1']/ll[.='p/q\']") /\
   path_of ex_t [0; 0; 5]%nat = Some (sb "/m1:c/l[k1='a b'][k.2=""[x]'y/""]/m2:k1") /\
-  path_of ex_t [0; 2]%nat = Some (sb "/m1:c/m2:c") /\
+  path_of ex_t [0; 4]%nat = Some (sb "/m1:c/m2:c") /\
+  path_of ex_t [0; 2; 3]%nat = Some (sb "/m1:c/tl[n='-7'][b='true'][e='a b']/u") /\
+  canon (TInt IntLex.I8) (sb " -07 ") = Some (sb "-7") /\ canon (TInt IntLex.I8) (sb "+007") = Some (sb "7") /\
+  canon (TInt IntLex.I8) (sb "128") = None /\ canon TBool (sb "True") = None /\
+  find_path ex_S ex_t (sb "/m1:c/tl[n=' -07 '][b='true'][e='a b']/u") = FRes (EFound [0; 2; 3]%nat) /\
+  find_path ex_S ex_t (sb "/m1:c/tl[e='up'][n=""+007""][b='false']") = FRes (EFound [0; 3]%nat) /\
+  new_path ex_S [] (sb "/m1:c/tl[n='-007'][b='true'][e='a b']/u") (sb "+0200") = NCreated None (spine ex_t [0; 2; 3]%nat) /\
   path_of ex_t [1; 2; 0]%nat = Some (sb "/m1:st/kl[3]/x") /\
   path_of ex_t [1; 4]%nat = Some (sb "/m1:st/sl[2]") /\
   new_path ex_S [] (sb "/m1:st/kl[3]/x") (sb "2") = NCreated None (spine ex_t [1; 2; 0]%nat).
